@@ -43,4 +43,11 @@ PROPS = {
         "modelled": EXTERNAL,
         "assumptions": ["arguments are live handles"],
     },
+    "C20": {
+        "suites": [("ffixed", 300, 3000), ("forest", 150, 3000)],
+        "proved_scope": "IN PROGRESS",
+        "not_proved": "IN PROGRESS",
+        "modelled": EXTERNAL + ["handles are creation-order numbers; interning (add_name_ns / add_prefix / add_namespace) is the identity on ids (C08)"],
+        "assumptions": ["store satisfies Forest.Inv", "document well-formed: unique prefixes and attribute names per element; no adjacent text children while text consolidation is on"],
+    },
 }
